@@ -461,7 +461,7 @@ Proof.
   assert (Hlend : len d = len pre + len s) by (rewrite Hd, len_app; reflexivity).
   assert (Hem : e = m).
   { destruct (Z.lt_trichotomy e m) as [Hlt|[?|Hgt]]; [|assumption|].
-    - exfalso. destruct Hend as [->|[_ [Hend|[Hsc _]]]]; [unfold m in Hlt; lia| |congruence]. apply (Hnone e); [lia|exact Hend].
+    - exfalso. destruct Hend as [->|[_ Hend]]; [unfold m in Hlt; lia|]. apply (Hnone e); [lia|exact Hend].
     - exfalso. apply (Hmin eq_refl Hns Hnp m); [unfold m in *; lia|exact Hm]. }
   subst e. destruct (Htok ltac:(unfold m; lia)) as (-> & -> & Htx & Hr' & Hit' & Hpos').
   exists l'. split; [|tauto].
